@@ -3,7 +3,7 @@
 For each <src>/C*/ref*/patch.diff a scratch copy of /repo's sources is made under $TMPDIR, the patch applied, and all 20 checks
 run with VSA_REPO/VSA_EVID pointing at the scratch.  Any verdict that differs from the unmodified tree's (exit code or number of
 known findings) is a FALSE ALARM / brittleness of the checker and is printed.  Nothing is written under /repo or /verif/evidence.
-usage: try_neutral.py [--src=/tmp/neu/out] [-j N] [--save]     (--save copies confirmed-neutral patches to /verif/neutral/)"""
+usage: try_neutral.py [--src=/tmp/neu/out] [-j N] [--save [--tag=r2]]     (--save copies confirmed-neutral patches to /verif/neutral/)"""
 import concurrent.futures as cf, glob, json, os, shutil, subprocess, sys, tempfile
 VERIF = os.path.dirname(os.path.dirname(os.path.abspath(__file__)))
 PROPS = [f"C{n:02d}" for n in range(1, 21)]
@@ -34,7 +34,7 @@ def one(d):
     finally:
         shutil.rmtree(tmp, ignore_errors=True)
 
-dirs = [d for d in sorted(glob.glob(os.path.join(src, "C*", "ref*"))) if os.path.exists(os.path.join(d, "patch.diff"))
+dirs = [d for d in sorted(glob.glob(os.path.join(src, "C*", "*ref*"))) if os.path.exists(os.path.join(d, "patch.diff"))
         and (not only or os.path.basename(os.path.dirname(d)) in only)]
 res = {}
 with cf.ProcessPoolExecutor(jobs) as ex:
@@ -65,7 +65,8 @@ json.dump(summary, open(os.path.join(src, "neutral_summary.json"), "w"), indent=
 if "--save" in sys.argv:
     for d in dirs:
         tag = f"{os.path.basename(os.path.dirname(d))}-{os.path.basename(d)}"
-        out = os.path.join(VERIF, "neutral", os.path.basename(os.path.dirname(d)), os.path.basename(d))
+        pre = next((a.split("=")[1] for a in sys.argv if a.startswith("--tag=")), "")
+        out = os.path.join(VERIF, "neutral", os.path.basename(os.path.dirname(d)), pre + os.path.basename(d))
         os.makedirs(out, exist_ok=True)
         for f in ("patch.diff", "meta.json", "equiv.py"):
             if os.path.exists(os.path.join(d, f)):
